@@ -442,6 +442,12 @@ func wrapInt(x *Term, t types.Type) *Term {
 		return x
 	}
 	bits := intBits(t)
+	// a term with a syntactic non-negative bit bound below the type's width is in range already
+	if b, ok := bitBound(x); ok {
+		if (isUnsigned(t) && b <= bits) || (!isUnsigned(t) && b < bits) {
+			return x
+		}
+	}
 	if isUnsigned(t) {
 		return Mod(x, Pow2(bits))
 	}
